@@ -188,7 +188,7 @@ def explore(res, tier, seed, model_ok=True):
     n = 500 if tier == 'quick' else 8000
     res.rule = ('%d histories: handshake, 0-3 messages, application close() at a random event (incl. Connecting/Connected/Ready) with code/reason variants, 0-3 more messages, server Close (valid code, empty, with reason; in a quarter of the cases between the fragments of an unfinished text/binary message) or none, more frames, EOF; '
                 'application sends (text, binary, ping, second close) at random events; close_timeout 30 / 5 / disabled (given as None or as 0); permessage-deflate negotiated in 30%% (application data then goes through the compressed send path); oracle: wire opcode sequence, per-call results and event order judged by rules written from the property; '
-                'non-trivial = history containing a close() call or a server Close; distinct by operation line') % n
+                'plus the same kind of history with one failing write (the application\'s Close, the echo, a data frame): correspondence only, the property is silent; non-trivial = history containing a close() call or a server Close; distinct by operation line') % n
     scs = [make(rng) for _ in range(n)]
     pairs = coreutil.run_pairs(scs, model_ok)
     callrecs = runner.parallel_map('coreutil', 'real_one_calls', [p[0] for p in pairs])
@@ -202,6 +202,25 @@ def explore(res, tier, seed, model_ok=True):
         judge(res, js, line, real, sc.server_close, cr.get('calls', []) if isinstance(cr, dict) and cr.get('trace') == real else [], sc.meta)
     coreutil.check_corr(res, pairs)
     res.samples += [pairs[0][1][-300:], pairs[1][1][-300:]]
+    # the same histories with ONE transport fault: the write of a Close frame (the application's, or the echo of the server's) fails.
+    # The property is stated for fault-free histories, so no rule of the oracle applies; these runs are part of the correspondence
+    # only (what the closing state, later sends and the final Disconnected look like after a failed echo is fixed by the model:
+    # `close()` enters the closing state whether or not its frame could be written)
+    fscs = []
+    for k in range(60 if tier == 'quick' else 900):
+        sc = make(rng)
+        sc.wfail = {rng.choice([1, 1, 2, 3])}
+        if k % 2 == 0:
+            sc.env = sc.env[:-1] + [('wait', 2, None), ('wait', 1, ('eof',))]
+        fscs.append(sc)
+    fpairs = coreutil.run_pairs(fscs, model_ok)
+    for js, line, real, model in fpairs:
+        if isinstance(real, dict):
+            res.crashes.append(real); continue
+        res.case(line, nontrivial='WF:' in real); res.count('one_write_fault_correspondence_only')
+        if 'WF:88' in real:
+            res.count('failed_close_frame_write')
+    coreutil.check_corr(res, fpairs)
 
 
 def replay(rp):
